@@ -172,3 +172,89 @@ theorem illegal_char_error (c : Char) (cs : List Char) (h : c ∈ illegalStart) 
 #print axioms illegal_char_error
 
 end Grule.LexFacts
+
+namespace Grule.LexFacts
+open Grule.Syntax
+
+set_option maxRecDepth 4000
+
+-- comments -------------------------------------------------------------------------------------------------------------------
+
+/-- does the text contain `*/`? -/
+def hasClose : List Char → Bool
+  | '*' :: '/' :: _ => true
+  | _ :: rest => hasClose rest
+  | [] => false
+
+/-- one step of the scan over a character that does not start `*/` -/
+theorem cc_step (c : Char) (rest : List Char) (k : Nat) (h : ¬ (c = '*' ∧ rest.head? = some '/')) :
+    closeComment (c :: rest) k = closeComment rest (k + 1) := by
+  conv => lhs; unfold closeComment
+  split
+  · rename_i tl heq
+    simp only [List.cons.injEq] at heq
+    obtain ⟨rfl, rfl⟩ := heq
+    exact absurd ⟨rfl, rfl⟩ h
+  · rename_i hd rs _ heq
+    simp only [List.cons.injEq] at heq
+    obtain ⟨_, rfl⟩ := heq
+    rfl
+  · rename_i heq; cases heq
+
+theorem closeComment_body : ∀ (body cs : List Char) (k : Nat), hasClose body = false →
+    closeComment (body ++ '*' :: '/' :: cs) k = some (k + body.length + 2)
+  | [], cs, k, _ => by simp [closeComment]
+  | [c], cs, k, _ => by
+    have hs := cc_step c ('*' :: '/' :: cs) k (by simp)
+    simp only [List.cons_append, List.nil_append]
+    rw [hs]
+    simp only [closeComment, List.length_cons, List.length_nil]
+  | c :: c2 :: b, cs, k, h => by
+    have hne : ¬ (c = '*' ∧ c2 = '/') := by
+      intro h1; obtain ⟨rfl, rfl⟩ := h1; simp [hasClose] at h
+    have hrest : hasClose (c2 :: b) = false := by
+      unfold hasClose at h
+      split at h
+      · rename_i tl heq; simp only [List.cons.injEq] at heq; exact absurd ⟨heq.1, heq.2.1⟩ hne
+      · rename_i hd rs _ heq; simp only [List.cons.injEq] at heq; obtain ⟨_, rfl⟩ := heq; exact h
+      · rename_i heq; cases heq
+    have ih := closeComment_body (c2 :: b) cs (k + 1) hrest
+    have hs := cc_step c ((c2 :: b) ++ '*' :: '/' :: cs) k (by simp; exact fun h1 h2 => hne ⟨h1, h2⟩)
+    simp only [List.cons_append] at hs ih ⊢
+    rw [hs, ih]
+    simp only [List.length_cons]; congr 1; omega
+
+/-- at `/*` the longest match is the comment up to the first `*/` -/
+theorem nextToken_comment (rest : List Char) (n : Nat) (h : closeComment rest 2 = some n) (hn : 2 ≤ n) :
+    nextToken ('/' :: '*' :: rest) = some (.comment, n) := by
+  simp [nextToken, rules, fixedTable, patternRules, pick, lit, kw, mName, mStr, mDecFloat, mExp, mHexFloat, mDecLit, mHexLit, mOctLit,
+    mSpace, mComment, mLineComment, decLitExact, mFrac, omax, isISC, iscRanges, inR, isDec, lowerC, span, isWs, List.isPrefixOf, h]
+  omega
+
+/-- **a comment in front of a text never changes the token stream** -/
+theorem lex_leading_comment (body cs : List Char) (h : hasClose body = false) :
+    lex ('/' :: '*' :: (body ++ '*' :: '/' :: cs)) = lex cs := by
+  have hc := closeComment_body body cs 2 h
+  have hnt := nextToken_comment (body ++ '*' :: '/' :: cs) (2 + body.length + 2) hc (by omega)
+  unfold lex
+  simp only [List.length_cons, lexLoop, hnt, TK.skipped, if_true]
+  have hdrop : List.drop (2 + body.length + 2) ('/' :: '*' :: (body ++ '*' :: '/' :: cs)) = cs := by
+    have : 2 + body.length + 2 = (('/' :: '*' :: body) ++ ['*', '/']).length := by simp; omega
+    rw [this]
+    have hl : '/' :: '*' :: (body ++ '*' :: '/' :: cs) = (('/' :: '*' :: body) ++ ['*', '/']) ++ cs := by simp
+    rw [hl]
+    exact List.drop_left
+  rw [hdrop]
+  exact lexLoop_fuel _ _ cs {} (by simp; omega) (by omega)
+
+/-- at `//` the longest match is the line comment up to the end of the line -/
+theorem nextToken_line (rest : List Char) :
+    nextToken ('/' :: '/' :: rest) = some (.lineComment, 2 + span (fun c => c != '\r' && c != '\n') rest) := by
+  simp [nextToken, rules, fixedTable, patternRules, pick, lit, kw, mName, mStr, mDecFloat, mExp, mHexFloat, mDecLit, mHexLit, mOctLit,
+    mSpace, mComment, mLineComment, decLitExact, mFrac, omax, isISC, iscRanges, inR, isDec, lowerC, span, isWs, List.isPrefixOf]
+  omega
+
+#print axioms lex_leading_comment
+#print axioms nextToken_line
+
+end Grule.LexFacts
